@@ -525,6 +525,16 @@ func main() {
 		}
 		jobs = keep
 	}
+	if only := os.Getenv("VERIF_C01_ONLY"); strings.HasPrefix(only, "stream") {
+		// debugging aid: stream0 .. stream6
+		var keep []job
+		for _, j := range jobs {
+			if fmt.Sprintf("stream%d", j.stream) == only {
+				keep = append(keep, j)
+			}
+		}
+		jobs = keep
+	}
 	if dir := os.Getenv("VERIF_C01_DUMP"); dir != "" {
 		// debugging aid: write the explicit histories of the selected jobs as replayable files
 		os.MkdirAll(dir, 0o755)
